@@ -142,6 +142,10 @@ def run(tier):
     rnd = random.Random(chk.seed * 65537 + 10)
     quick = tier == "quick"
     mc_dag.run_mc(chk, quick, which="C10")
+    import toy
+
+    for m_ in toy.run_toy(chk, quick, rnd, "C10", kinds=['round'])[:5]:
+        chk.violation(f"C10|toy-universe|target={m_['target']}|{m_['what'][:40]}", f"toy universe (MC_Dag configuration {m_['id']}): {m_['what']} for target {m_['target']}", m_)
     res = tlc.run("MC_Round", "MC_Round.cfg", workdir=chk.work, workers=8, timeout=900)
     if res.violated:
         chk.violation(f"C10|spec-theorem|{','.join(res.violated)}", "RoundSpec violates a theorem", {"out": res.out[-2000:]})
